@@ -265,3 +265,65 @@ Theorem C12_float_nan_breaks_monotonicity :
   existsb is_nan x = true /\ (nth 0 x 0 <=? nth 1 x 0)%float = false.
 Proof. exact nan_breaks_monotonicity. Qed.
 Print Assumptions C12_float_nan_breaks_monotonicity.
+
+(* ---- float twin of the quantile / median path (primitive floats; the names listed by Print Assumptions are Coq's primitive float / integer operations, not axioms; nothing from FloatAxioms) ---- *)
+From Coq Require Import PrimFloat List Bool.
+Import ListNotations.
+From MD Require Import model.PavaFloat model.GpavaQFloat proofs.PavaFloatProps proofs.GpavaQFloatProps.
+
+(* BIT-EXACT binary64 twin of the quantile / median path (model/GpavaQFloat.v): the structural contract for EVERY float input and level - (1) length, (2-5) r from 0 to n strictly increasing with at least one block, (6) k is a block start exactly when the code's own test x[k] - x[k-1] == 0 (line 417, read in the direction of the fit) is false, (7) x is bitwise constant on the blocks rl of the lower solution xl, whose adjacent block values never satisfy the pooling test *)
+Theorem C12_float_quantile_contract :
+  forall (y : list float) (level lu : float) (inc : bool) (x : list float) (r : list nat),
+       isotonic_quantile_f y level lu inc = FOk (x, r) ->
+       length x = length y /\
+       hd 0%nat r = 0%nat /\
+       last r 0%nat = length y /\
+       (2 <= length r)%nat /\
+       (forall j : nat, (S j < length r)%nat -> (nth j r 0 < nth (S j) r 0)%nat) /\
+       (forall (k : nat) (d : float), (0 < k < length y)%nat -> In k r <-> qdiff_nz inc x d k = true) /\
+       (exists (xl : list float) (rl : list nat),
+          block_form_rel (boundary_rel inc) xl rl /\ block_form x rl /\ length xl = length y).
+Proof. exact isotonic_quantile_f_contract. Qed.
+Print Assumptions C12_float_quantile_contract.
+
+(* the recomputed block vector in isolation *)
+Theorem C12_float_quantile_recomputed_r :
+  forall x : list float, x <> [] ->
+       hd 0%nat (frecompute x) = 0%nat /\
+       last (frecompute x) 0%nat = length x /\
+       (2 <= length (frecompute x))%nat /\
+       Sorted.StronglySorted lt (frecompute x) /\
+       (forall (k : nat) (d : float), (0 < k < length x)%nat -> In k (frecompute x) <-> fdiff_nz x d (k - 1) = true).
+Proof. exact frecompute_spec. Qed.
+Print Assumptions C12_float_quantile_recomputed_r.
+
+(* success exactly when 0 < level < 1 (IEEE), y is non-empty and level, level_upper are acceptable to np.quantile (not NaN) *)
+Theorem C12_float_quantile_ok_iff :
+  forall (y : list float) (level lu : float) (inc : bool),
+       (exists xr : list float * list nat, isotonic_quantile_f y level lu inc = FOk xr) <->
+       level_bad level = false /\ y <> [] /\ q_invalid level = false /\ q_invalid lu = false.
+Proof. exact isotonic_quantile_f_ok_iff. Qed.
+Print Assumptions C12_float_quantile_ok_iff.
+
+Theorem C12_float_quantile_decreasing_is_mirror :
+  forall (y : list float) (level lu : float),
+       isotonic_quantile_f y level lu false =
+       match isotonic_quantile_f (rev y) level lu true with
+       | FOk (x, r) => FOk (rev x, mirror_r r)
+       | FErr e => FErr e
+       end.
+Proof. exact isotonic_quantile_f_decreasing. Qed.
+Print Assumptions C12_float_quantile_decreasing_is_mirror.
+
+(* what the contract does NOT give, on the implementation itself (both runs are in the correspondence set): the midpoint 0.5 * (xl + xu) overflows, the equal values inf, inf land in two blocks (inf - inf = NaN is "nonzero"); and a block of r whose values are == but not bit-equal *)
+Theorem C12_float_quantile_example_overflow :
+  isotonic_median_f [0x1.e42d130773b76p+1023; 0x1.e42d130773b76p+1023]%float true
+  = FOk ([infinity; infinity]%float, [0; 1; 2]%nat).
+Proof. exact isotonic_median_f_example_overflow. Qed.
+Print Assumptions C12_float_quantile_example_overflow.
+
+Theorem C12_float_quantile_example_signed_zero :
+  isotonic_median_f [0; (-0x0.0000000000001p-1022); 0]%float true
+  = FOk ([(-0); (-0); 0]%float, [0; 3]%nat).
+Proof. exact isotonic_median_f_example_signed_zero. Qed.
+Print Assumptions C12_float_quantile_example_signed_zero.
